@@ -71,7 +71,7 @@ def decl_source(f) -> str:
     if f.get("kw"):
         args.append("kw_only=True")
     if f["dflt"] == "int":
-        args.append(f"default={DEFAULT}")
+        args.append(f"default={f.get('dv', DEFAULT)}")
     elif f["dflt"] == "none":
         args.append("default=None")
     md = {}
@@ -131,7 +131,9 @@ def class_source(spec) -> str:
         return levels[j]["cls"] + ("[int]" if generic and j == 0 else "")
 
     for j, lv in enumerate(levels):
-        if spec.get("shape") == "roots" and lv["cls"] == "K":
+        if spec.get("shape") == "diamond":
+            bases = {"A": [root] if root else [], "B": ["A"], "C": ["A"], "K": ["B", "C"]}[lv["cls"]]
+        elif spec.get("shape") == "roots" and lv["cls"] == "K":
             bases = [ref(i) for i in range(j - 1, -1, -1)]            # K(B, A): nearest first
         elif spec.get("shape") == "roots" or j == 0:
             bases = [root] if root else []
@@ -218,9 +220,35 @@ def drop_module(mod):
 # the oracle: KEYMODEL written from the property text + dataclass semantics (independent of builder.py)
 # ---------------------------------------------------------------------------
 
+DIAMOND_MRO = {"A": [], "B": ["A"], "C": ["A"], "K": ["B", "C", "A"]}     # checked against the real __mro__
+
+
+def o_fields_diamond(spec, name="K") -> list:
+    """dataclasses: walk the MRO from the far end, every dataclass ancestor contributes its *cumulative* fields, then the
+    own declarations; typing.get_type_hints: the same walk over the own annotations only.  Field data (metadata, default,
+    init) come from the first, the annotation from the second."""
+    own = {lv["cls"]: lv["decls"] for lv in spec["levels"]}
+
+    def cum(c):
+        seen = {}
+        for b in reversed(DIAMOND_MRO[c]):
+            for f in cum(b):
+                seen[f["name"]] = f
+        for f in own[c]:
+            seen[f["name"]] = f
+        return list(seen.values())
+    hints = {}
+    for b in list(reversed(DIAMOND_MRO[name])) + [name]:
+        for f in own[b]:
+            hints[f["name"]] = f
+    return [dict(f, ann=hints[f["name"]]["ann"], ty=hints[f["name"]]["ty"]) for f in cum(name) if f["init"]]
+
+
 def o_fields(spec) -> list:
     """The init fields K has, by dataclass semantics: collected base-most class first; a re-declaration replaces
     the inherited one in place (dict insertion order); init=False members are not constructor parameters."""
+    if spec.get("shape") == "diamond":
+        return o_fields_diamond(spec)
     seen = {}
     for lv in spec["levels"]:
         for f in lv["decls"]:
@@ -313,7 +341,7 @@ def o_accepted(spec):
 
 
 def o_default(f):
-    return {"int": DEFAULT, "none": None}[f["dflt"]]
+    return {"int": f.get("dv", DEFAULT), "none": None}[f["dflt"]]
 
 
 def o_keymodel(spec, d: dict):
@@ -1073,6 +1101,146 @@ def nested_stream(ctx, rng, k4_ok):
             ctx.not_shown("correspondence " + name, det)
 
 
+
+# ---------------------------------------------------------------------------
+# the class table with the real MROs: CPython's dataclass walk / get_type_hints vs KeyDc
+# ---------------------------------------------------------------------------
+
+def c_table(spec, mod) -> str:
+    names = [lv["cls"] for lv in spec["levels"]]
+    rows = []
+    for lv in spec["levels"]:
+        cls = getattr(mod, lv["cls"])
+        mro = [names.index(c.__name__) for c in cls.__mro__[1:] if c.__module__ == mod.__name__ and c.__name__ in names]
+        decls = "; ".join(f"({c_fld(f)}, {vlib.coq_bool(f['init'])})" for f in lv["decls"])
+        rows.append(f"mkPC [{decls}] [{'; '.join(f'{i}%nat' for i in mro)}]")
+    return "[" + "; ".join(rows) + "]"
+
+
+def dc_views(spec, mod):
+    """per class: (index, real __dataclass_fields__ as [(name, metadata alias, init)], real type hints as
+    [(name, last Alias of the annotation)]) as Coq terms"""
+    import dataclasses
+    import typing_extensions
+    from mashumaro.types import Alias
+    out = []
+    for j, lv in enumerate(spec["levels"]):
+        cls = getattr(mod, lv["cls"])
+        fl = [(n, f) for n, f in cls.__dataclass_fields__.items() if f._field_type is dataclasses._FIELD]
+        fs = "[" + "; ".join(f"({coq_str(n)}, {c_ostr(f.metadata.get('alias'))}, {vlib.coq_bool(f.init)})" for n, f in fl) + "]"
+        hints = typing_extensions.get_type_hints(cls, include_extras=True)
+        hv = []
+        for n, _ in fl:
+            al = [a.name for a in getattr(hints.get(n), "__metadata__", ()) if isinstance(a, Alias)]
+            hv.append(f"({coq_str(n)}, {c_ostr(al[-1] if al else None)})")
+        out.append((j, fs, "[" + "; ".join(hv) + "]"))
+    return out
+
+
+def gen_diamond(rng):
+    """A; B(A); C(A); K(B, C) -- every class may (re-)declare x, y, z with its own alias sources and default value"""
+    dv = {"A": -1, "B": -2, "C": -3, "K": -4}
+    levels = []
+    for c in ("A", "B", "C", "K"):
+        decls = []
+        for n in NAMES:
+            if rng.random() < (0.7 if c == "A" else 0.4):
+                meta = rng.choice([None, f"m{c}_{n}", "s1"])
+                ann = rng.choice([None, None, [("alias", f"a{c}_{n}")], [("other",)], [("alias", "s2"), ("other",)]])
+                decls.append({"name": n, "meta": meta, "ann": ann, "init": rng.random() < 0.9, "dflt": "int", "dv": dv[c],
+                              "ty": "any", "mo": False, "kw": False, "tv": False})
+        levels.append({"cls": c, "decls": decls, "config": None})
+    alias_names = NAMES
+    levels[-1]["config"] = {"plain": False, "inherit": None,
+                            "aliases": {n: f"c_{n}" for n in alias_names if rng.random() < 0.4},
+                            "allow": rng.random() < 0.5, "forbid": rng.random() < 0.5}
+    return {"levels": levels, "classvar": [], "initvar": [], "shape": "diamond", "generic": False, "discr": None,
+            "mixin": rng.choice([None, "dict"])}
+
+
+def diamond_stream(ctx, rng, k4_ok, dc_items, dc_shown):
+    from mashumaro.codecs import BasicDecoder
+    items, shown = [], []
+    for ci in range(ctx.budget(40, 160)):
+        spec = gen_diamond(rng)
+        src = class_source(spec)
+        try:
+            mod = build_class(src)
+            K = mod.K
+            ents = ([("K.from_dict", K.from_dict)] if spec["mixin"] else []) + [("BasicDecoder(K).decode", BasicDecoder(K).decode)]
+        except Exception as e:
+            ctx.fail(f"class creation fails: {type(e).__name__}: {e}",
+                     {"entry": "class-creation", "source": src, "spec": spec, "input": [], "observed": repr(e),
+                      "expected": "the classes are created"}, {"kind": "class-creation", "exc": type(e).__name__})
+            continue
+        real_mro = {c: [b.__name__ for b in getattr(mod, c).__mro__[1:] if b.__name__ in DIAMOND_MRO] for c in DIAMOND_MRO}
+        if real_mro != DIAMOND_MRO:
+            ctx.not_shown("diamond MRO", f"expected {DIAMOND_MRO}, Python says {real_mro}")
+            continue
+        tbl = c_table(spec, mod)
+        for j, fs, hv in dc_views(spec, mod):
+            k = len(dc_items)
+            dc_items.append((f"d{ci}", f"Definition td{ci} : list pyclassdef := {tbl}.", f"(td{ci}, {j}%nat, {fs}, {hv})"))
+            dc_shown.append((src, spec["levels"][j]["cls"], fs, hv))
+        fields = o_fields(spec)
+        ctx.hist("diamond", f"fields={len(fields)} redeclared_in_C={sum(1 for f in spec['levels'][2]['decls'] if any(g['name'] == f['name'] for g in spec['levels'][0]['decls']))}")
+        keys = candidate_keys(spec, rng, limit=7)
+        cfg = spec["levels"][-1]["config"]
+        g = f"(mkCfg {c_aliases(cfg['aliases'])} {vlib.coq_bool(cfg['allow'])} {vlib.coq_bool(cfg['forbid'])})"
+        dfl = c_defaults(spec)
+        for ks in subsets(keys, rng, ctx.budget(24, 128)):
+            d = make_dict(ks, keys, rng)
+            exp = o_keymodel(spec, d)
+            obs0 = None
+            for ename, call in ents:
+                obs = observe(spec, call, d)
+                ctx.count(("diamond", ci, repr(sorted(map(repr, d.items()))), ename))
+                ctx.hist("outcome", obs[0] + " (diamond stream)")
+                obs0 = obs if obs0 is None else obs0
+                if obs != exp:
+                    ctx.fail(f"{ename}({d!r}) -> {obs!r}, KEYMODEL says {exp!r}",
+                             replay_of(spec, src, ename, d, obs, exp),
+                             {"kind": "key-resolution", "observed": obs[0], "expected": exp[0]})
+            items.append((f"d{ci}", f"Definition td{ci} : list pyclassdef := {tbl}.", f"(td{ci}, {g}, {dfl}, {c_dict(d)}, {c_obs(obs0)})"))
+            shown.append((src, d, obs0))
+        drop_module(mod)
+    okf = ("fun c => match c with (cs, g, dfl, d, o) => let cl := dc_class cs 3 g None in "
+           "observation_eqb (observe dfl (keymodel cl d)) o && "
+           "match impl_from_dict cl d with Ok r => observation_eqb (observe dfl r) o | Raise _ => false end end")
+    okr = ("fun c => match c with (cs, g, dfl, d, o) => observation_eqb (observe dfl (keymodel (dc_class cs 3 g None) d)) o end")
+    ctype = "list pyclassdef * cfg * list Z * dict * observation"
+    if k4_ok:
+        bad, log = coq_check("c09_diamond", ("KeyModel KeyImpl KeyDc PyK_alias", "From VerifGen Require Import K4.",
+                                             ["theories/KeyImpl.vo", "theories/KeyDc.vo"]), items, okf, ctx, ctype=ctype)
+    else:
+        bad, log = coq_check("c09_diamond", ("KeyModel KeyDc", "", ["theories/KeyDc.vo"]), items, okr, ctx, ctype=ctype)
+    name = "diamond: impl(K4)/keymodel on dc_class-vs-from_dict"
+    if bad is None:
+        ctx.correspondence(name, len(items), -1, log)
+        ctx.not_shown("correspondence " + name, log)
+    else:
+        det = "" if not bad else f"{len(bad)} cases, first: input {shown[bad[0]][1]!r}: implementation {shown[bad[0]][2]!r}\n{shown[bad[0]][0]}"
+        ctx.correspondence(name, len(items), len(bad), det)
+        if bad:
+            ctx.not_shown("correspondence " + name, det)
+
+
+def dc_check(ctx, dc_items, dc_shown):
+    okf = ("fun c => match c with (cs, j, fs, hv) => view_eqb (decl_view (nth j (dc_table cs []) [])) fs "
+           "&& hview_eqb (hints_alias_view cs j (map (fun p => fst (fst p)) fs)) hv end")
+    bad, log = coq_check("c09_dc", ("KeyModel KeyDc", "", ["theories/KeyDc.vo"]), dc_items, okf, ctx,
+                         ctype="list pyclassdef * nat * list (string * option string * bool) * list (string * option string)")
+    name = "dc_table/class_hints-vs-__dataclass_fields__/get_type_hints"
+    if bad is None:
+        ctx.correspondence(name, len(dc_items), -1, log)
+        ctx.not_shown("correspondence " + name, log)
+    else:
+        det = "" if not bad else f"{len(bad)} cases, first: class {dc_shown[bad[0]][1]}: real {dc_shown[bad[0]][2]} hints {dc_shown[bad[0]][3]}\n{dc_shown[bad[0]][0]}"
+        ctx.correspondence(name, len(dc_items), len(bad), det)
+        if bad:
+            ctx.not_shown("correspondence " + name, det)
+
+
 # ---------------------------------------------------------------------------
 # the check
 # ---------------------------------------------------------------------------
@@ -1080,6 +1248,7 @@ def nested_stream(ctx, rng, k4_ok):
 THEOREMS = ["K4_precedence", "K4_key_plan", "K4_allowed_keys", "C09_impl_is_code", "C09_keys", "C09_keys_hier",
             "C09_nearest_declaration", "C09_nearest_config", "C09_get_config", "C09_builder_config", "C09_fields_unique", "C09_alias_from_sources",
             "C09_mro_chain", "C09_mro_roots", "C09_own_view_finished", "C09_own_view_raw", "C09_nested", "C09_nested_inner_options", "C09_pre_hook", "C09_nearest_hook", "C09_hook_rename",
+            "C09_dc_lookup", "C09_dc_chain", "C09_dc_roots", "C09_dataclass_fields_dc",
             "C09_field_key", "C09_outcome", "C09_alias_wins", "C09_fallback", "C09_accepted_covers_reads",
             "C09_reads_allowed", "C09_extra_members", "C09_extra_exact", "C09_ignored", "C09_forbidden_reported"]
 
@@ -1160,6 +1329,8 @@ def run(ctx: vlib.Ctx):
     if k4_ok:
         kernel_validation(ctx, rng)
     nested_stream(ctx, rng, k4_ok)
+    dc_items, dc_shown = [], []
+    diamond_stream(ctx, rng, k4_ok, dc_items, dc_shown)
     n_classes = ctx.budget(200, 320)
     sub_max = ctx.budget(32, 256)
     forced = [{"allow": a, "forbid": b, "mixin": m, "nf": nf, "depth": dp} for a in (False, True) for b in (False, True)
@@ -1201,6 +1372,13 @@ def run(ctx: vlib.Ctx):
             ctx.fail(f"CodeBuilder view fails: {type(e).__name__}: {e}",
                      {"entry": "class-creation", "source": src, "spec": spec, "input": [], "observed": repr(e),
                       "expected": "CodeBuilder(cls).dataclass_fields / get_config()"}, {"kind": "class-creation", "exc": type(e).__name__})
+        try:
+            tbl = c_table(spec, mod)
+            for j, fs, hv in dc_views(spec, mod):
+                dc_items.append((f"m{ci}", f"Definition tm{ci} : list pyclassdef := {tbl}.", f"(tm{ci}, {j}%nat, {fs}, {hv})"))
+                dc_shown.append((src, spec["levels"][j]["cls"], fs, hv))
+        except Exception as e:
+            ctx.not_shown("dataclass views", f"{type(e).__name__}: {e}")
         keys = candidate_keys(spec, rng)
         fields = o_fields(spec)
         cfgv = o_config(spec)
@@ -1321,6 +1499,7 @@ def run(ctx: vlib.Ctx):
         report(n_ref, bad, log, n_dom)
     ctx.notes.append(f"oracle mismatches (incl. listed findings): {n_mismatch_oracle}")
 
+    dc_check(ctx, dc_items, dc_shown)
     # ---- the modelled Python / dataclasses semantics and CodeBuilder's own view of the classes
     okv = ("fun c => match c with (h, hc, fs, g) => view_eqb (decl_view (collect h)) fs && cfg_eqb (nearest_cfg hc) g end")
     src_model = REF
